@@ -702,11 +702,13 @@ theorem GOk.serve_oneshot {s X : St} (h : GOk s) (k : Nat) (cred : Cred)
 
 theorem GOk.accept_oneshot {s : St} (h : GOk s) (k : Nat) (cred : Cred) (ids : List Nat)
     (hk : s.cfg.kind = .oneshot) (hcl : s.closedFlag = false) (hbusy : s.acceptBusy = none)
-    (habs : (s.cli k).phase = .absent) (hcr : cred ≠ .silent) (hbad : cred = .bad → s.cfg.auth = true) :
+    (habs : (s.cli k).phase = .absent) (hcr : cred ≠ .silent) (hcr2 : cred ≠ .reset)
+    (hbad : cred = .bad → s.cfg.auth = true) :
     GOk (acceptOne { (s.set k (fresh cred)) with ids := ids } k) := by
   have hserved := fun X => h.serve_oneshot (X := X) k cred hk hcl hbusy hcr
   cases cred with
   | silent => exact absurd rfl hcr
+  | reset => exact absurd rfl hcr2
   | good =>
     cases hau : s.cfg.auth <;> simp only [acceptOne, hk, authServe, set_cfg, hau, if_true, if_false, set_cli_same, fresh,
         Bool.false_eq_true] <;>
@@ -728,7 +730,8 @@ theorem GOk.accept_oneshot {s : St} (h : GOk s) (k : Nat) (cred : Cred) (ids : L
 
 /-- the alphabet of C17: connect (with good or failing credentials), call, graceful close, abrupt close, server close -/
 def Op.c17 : Op → Bool
-  | .connect _ c => c != .silent
+  | .connect _ c => c == .good || c == .bad
+  | .creds _ _ => false
   | .call _ _ => true
   | .raw _ _ => false
   | .gracefulClose _ => true
@@ -769,7 +772,8 @@ theorem GOk.add_backlog {s : St} (h : GOk s) (k : Nat) (cred : Cred) (ids : List
       · subst hjk; simp [fresh] at hj
       · exact a12 h1 i j (by simpa [set_cli_ne _ _ _ _ hik] using hi) (by simpa [set_cli_ne _ _ _ _ hjk] using hj)
 
-theorem GOk.connect {s : St} (h : GOk s) (k : Nat) (cred : Cred) (hcr : cred ≠ .silent) {s' : St} {o : Obs}
+theorem GOk.connect {s : St} (h : GOk s) (k : Nat) (cred : Cred) (hcr : cred ≠ .silent) (hcr2 : cred ≠ .reset)
+    {s' : St} {o : Obs}
     (hs : step s (.connect k cred) = .ok (s', o)) : GOk s' := by
   unfold step at hs
   by_cases hg : ((s.cli k).phase != .absent || (cred == .bad && !s.cfg.auth)) = true
@@ -787,7 +791,10 @@ theorem GOk.connect {s : St} (h : GOk s) (k : Nat) (cred : Cred) (hcr : cred ≠
         cases hcf : s.closedFlag with
         | false => rfl
         | true => have := (h.closed hcf).1; simp [hl] at this
-      change GOk (acceptAll (s.ids ++ [k]) { (s.set k (fresh cred)) with ids := s.ids ++ [k] })
+      have hfr : ({ cred := cred, phase := .backlog, clientOpen := cred != .reset,
+                    inbox := if cred = .reset then [.fin] else [] } : Cli) = fresh cred := by
+        simp [fresh, hcr2]
+      rw [hfr]
       by_cases hca : canAccept s = true
       · -- the accept loop is free: only the new connection is waiting, it is taken at once
         have hbusy : s.acceptBusy = none := by simp [canAccept] at hca; exact hca.2
@@ -796,7 +803,7 @@ theorem GOk.connect {s : St} (h : GOk s) (k : Nat) (cred : Cred) (hcr : cred ≠
           | threaded => exact h.accept_dedicated k cred _ (Or.inl hkind) hcl habs hcr hbad
           | forking => exact h.accept_dedicated k cred _ (Or.inr hkind) hcl habs hcr hbad
           | pool => exact h.accept_pool k cred _ hkind hcl habs hcr hbad
-          | oneshot => exact h.accept_oneshot k cred _ hkind hcl hbusy habs hcr hbad
+          | oneshot => exact h.accept_oneshot k cred _ hkind hcl hbusy habs hcr hcr2 hbad
         rw [acceptAll_single (s.ids ++ [k]) _ k (by simp) (by exact hca) (by simp [fresh])
           (by intro j hj; simpa [set_cli_ne _ _ _ _ hj] using h.no_backlog hca j)
           (fun h1 j => hres.no_backlog h1 j)]
@@ -821,8 +828,11 @@ theorem usable_phase {s : St} {k : Nat} (h : usable s k = true) : (s.cli k).phas
 theorem GOk.step {s s' : St} {o : Obs} (h : GOk s) (op : Op) (hop : op.c17 = true)
     (hs : Srv.step s op = .ok (s', o)) : GOk s' := by
   cases op with
-  | connect k cred => exact h.connect k cred (by simpa [Op.c17] using hop) hs
+  | connect k cred =>
+    have : cred = .good ∨ cred = .bad := by simpa [Op.c17] using hop
+    exact h.connect k cred (by rcases this with h | h <;> simp [h]) (by rcases this with h | h <;> simp [h]) hs
   | raw k items => simp [Op.c17] at hop
+  | creds k c => simp [Op.c17] at hop
   | call k r =>
     unfold Srv.step at hs
     by_cases hu : usable s k = true
@@ -879,8 +889,10 @@ theorem GOk.run {s : St} (h : GOk s) (ops : List Op) (hops : ∀ op ∈ ops, op.
   unfold serveClient; simp
 @[simp] theorem authServe_cfg (s : St) (k : Nat) : (authServe s k).cfg = s.cfg := by
   unfold authServe; split
-  · split <;> (try split) <;> simp
   · simp
+  · split
+    · split <;> (try split) <;> simp
+    · simp
 @[simp] theorem poolPlace_cfg (s : St) (k : Nat) (r : Cli × Nat) : (poolPlace s k r).cfg = s.cfg := by
   unfold poolPlace; split <;> simp
 @[simp] theorem poolServeOne_cfg (s : St) (k : Nat) : (poolServeOne s k).cfg = s.cfg := by
@@ -898,8 +910,10 @@ theorem GOk.run {s : St} (h : GOk s) (ops : List Op) (hops : ∀ op ∈ ops, op.
   unfold poolBuild; simp
 @[simp] theorem poolAccept_cfg (s : St) (k : Nat) : (poolAccept s k).cfg = s.cfg := by
   unfold poolAccept; split
-  · split <;> (try split) <;> simp
   · simp
+  · split
+    · split <;> (try split) <;> simp
+    · simp
 @[simp] theorem acceptOne_cfg (s : St) (k : Nat) : (acceptOne s k).cfg = s.cfg := by
   unfold acceptOne; split <;> simp
 @[simp] theorem acceptAll_cfg (l : List Nat) (s : St) : (acceptAll l s).cfg = s.cfg := by
@@ -912,6 +926,13 @@ theorem GOk.run {s : St} (h : GOk s) (ops : List Op) (hops : ∀ op ∈ ops, op.
   unfold wake; split <;> (try split) <;> (try split) <;> simp
 @[simp] theorem send_cfg (s : St) (k : Nat) (l : List Item) : (send s k l).cfg = s.cfg := by
   unfold send; split <;> simp
+
+@[simp] theorem poolAuthDone_cfg (s : St) (k : Nat) : (poolAuthDone s k).cfg = s.cfg := by
+  unfold poolAuthDone; simp
+@[simp] theorem supply_cfg (s : St) (k : Nat) (c : Cred) : (supply s k c).cfg = s.cfg := by
+  unfold supply; split
+  · simp
+  · split <;> (try split) <;> (try split) <;> simp
 
 theorem step_cfg {s s' : St} {o : Obs} (op : Op) (h : step s op = .ok (s', o)) : s'.cfg = s.cfg := by
   cases op with
